@@ -43,7 +43,14 @@ def tokens(name, fn, a, b, rnd):
         arr_b = np.array([b, b, b, a, -2.0, a])
         out = fn(arr_a, arr_b)
         exp = [float(fn(x, y)) for x, y in zip(arr_a, arr_b)]
-        t["vec"] = 1 if all((o == e) or (math.isnan(o) and math.isnan(e)) for o, e in zip(out, exp)) else 0
+        # elementwise semantics; the array path and the Python-scalar path may round a**2 differently (pow vs multiply): 2 ulp
+        def same(o, e):
+            if math.isnan(o) and math.isnan(e):
+                return True
+            if o == e:
+                return True
+            return math.isfinite(o) and math.isfinite(e) and abs(Fraction(o) - Fraction(e)) <= 2 * U * max(abs(Fraction(o)), abs(Fraction(e)))
+        t["vec"] = 1 if all(same(float(o), float(e)) for o, e in zip(out, exp)) else 0
         # homogeneity / idempotence only where the property states them
         large = 1 if (abs(a) >= 1e-8 and abs(b) >= 1e-8 and abs(a) <= 1e150 and abs(b) <= 1e150) else 0
         t["large"] = large
